@@ -81,6 +81,17 @@ def mk_options(opts: list[str]) -> tuple[dict[str, Any] | None, Any]:
     return (d or None), (PDialect if "dialect" in opts else None)
 
 
+def has_big_int(o: Any) -> bool:
+    if not isinstance(o, ASTNode):
+        return False
+    for x in RW.walk(o):
+        for f in U.PROP_FIELDS[RW.cname(x)]:
+            v = getattr(x, f.name)
+            if isinstance(v, int) and not isinstance(v, bool) and not -(2**63) <= v < 2**64:
+                return True
+    return False
+
+
 def call_ser(o: Any, m: str, opts: list[str]) -> Any:
     so, dia = mk_options(opts)
     if m == "as_dict":
@@ -368,6 +379,7 @@ class World:
         self.probe_source = U.SRC["a"]
         self.golden = (self.probe.as_dict(), self.probe_origin.as_dict(), self.probe_source.as_dict())
         self.golden_frozen = copy.deepcopy(self.golden)
+        self.last_hits: dict[str, int] = {}
 
     def viol(self, oracle: str, sig: str, message: str, **facts: Any) -> Violation:
         return Violation(self.prop, oracle, sig, message, {"step": self.step_no, **facts})
@@ -544,6 +556,12 @@ class World:
                 if flt:
                     self.stats.probes["fault_fired:" + flt["site"]] += 1
                     outcome = "raised:" + type(e).__name__
+                elif m in ("to_json", "to_jsonb", "to_msgpck") and has_big_int(o):
+                    # integers beyond 64 bits are outside what these encoders support: the call may raise (and must
+                    # then leave nothing behind), it must not return a document that ignores its options
+                    self.stats.probes["call_raised_on_unsupported_int"] += 1
+                    outcome = "raised:" + type(e).__name__
+                    self.last_hits = {}
                 else:
                     raise self.viol("C16.0 call-raised", f"C16.0:{m}:{type(e).__name__}", f"{m} with options {sorted(opts)} raised {type(e).__name__}: {e}") from None
             finally:
@@ -751,7 +769,7 @@ def make_config(rseed: int, prop: str, tier: str, faults: bool) -> dict[str, Any
             "leaf_classes": leafs,
             "inner_classes": r.sample(["Pair", "Seq", "Mixed", "Fixed", "SeqPlus", "Falsy"], r.choice([2, 3, 4, 6])),
             "origins": r.sample(U.ORIGIN_KEYS + U.EXTRA_ORIGIN_KEYS, r.choice([2, 3, 5])),
-            "pools": {"str": strpool, "bool": [True, False]},
+            "pools": {"str": strpool, "bool": [True, False], **({"int": [0, 7, 2**64, -(2**70)]} if r.random() < 0.2 else {})},
             "actors": ["persister"],
             "rtc": False,
         },
